@@ -62,8 +62,11 @@ def stimuli(tier, seed, ctx):
     out = []
     for _ in range(700 if tier == 'quick' else 12000):
         # a = a sequential block with the async-init add-on, f = an FSM
-        kind = rnd.choice(['s', 'i', 'c', 'a', 'f'])
+        # k = a persistent Counter starting from its saved state
+        kind = rnd.choice(['s', 'i', 'c', 'a', 'f', 'k'])
         hist = [rnd.randint(1, nobj) for _ in range(rnd.randint(1, 12))]
+        if kind == 'k':
+            hist = [rnd.choice([1, 2, 9]) for _ in hist]        # (the integers 0, 1, 2)
         out.append({'kind': kind, 'on_output': _rand_events(rnd, rnd.randint(0, 3)),
                     'on_every': _rand_events(rnd, rnd.randint(0, 3)) if kind != 'c' else [],
                     'hist': hist, 'fdest': rnd.random() < 0.3,
@@ -192,6 +195,11 @@ def execute(stim):
         elif kind == 'f':
             snd = SndF('snd', on_output=events(stim['on_output']), on_every_output=events(stim['on_every']))
             target = snd
+        elif kind == 'k':
+            snd = edzed.Counter('snd', persistent=True, on_output=events(stim['on_output']),
+                                on_every_output=events(stim['on_every']))
+            circuit.persistent_dict[snd.key] = first        # the saved state (the first output)
+            target = snd
         elif kind == 'a':
             snd = SndA('snd', init_timeout=0, on_output=events(stim['on_output']),
                        on_every_output=events(stim['on_every']))
@@ -244,7 +252,7 @@ def execute(stim):
                 log.append({'ev': 'assign', 'v': cls[v - 1], 'deliv': list(got), 'out': tag(snd.output),
                             'late': 0})
 
-    rt.run_circuit(build, script)
+    rt.run_circuit(build, script, storage={} if stim['kind'] == 'k' else None)
     strip = lambda lst: [{'dest': e['dest'], 'etype': e['etype'], 'filters': e['filters']} for e in lst]
     # values are named by the class id of their first equal object; NaN (never equal, not even
     # to itself) has equality class 0
